@@ -69,8 +69,8 @@ var (
 )
 
 var (
-	substCache = map[string]string{"os": "verif/sim/os", "time": "verif/sim/time", "sync": "verif/sim/sync"}
-	substLF    = map[string]string{"os": "verif/sim/os", "sync": "verif/sim/sync", "syscall": "verif/sim/sys", "time": "verif/sim/time", "runtime": "verif/sim/runtime"}
+	substCache = map[string]string{"os": "verif/sim/os", "time": "verif/sim/time", "sync": "verif/sim/sync", "sync/atomic": "verif/sim/atomic"}
+	substLF    = map[string]string{"os": "verif/sim/os", "sync": "verif/sim/sync", "syscall": "verif/sim/sys", "time": "verif/sim/time", "runtime": "verif/sim/runtime", "sync/atomic": "verif/sim/atomic"}
 )
 
 func cacheSpecs() []rewrite.PkgSpec {
@@ -82,7 +82,7 @@ func cacheSpecs() []rewrite.PkgSpec {
 }
 
 func proxySpecs() []rewrite.PkgSpec {
-	net := map[string]string{"os": "verif/sim/os", "net": "verif/sim/net", "net/http": "verif/sim/net", "sync": "verif/sim/sync"}
+	net := map[string]string{"os": "verif/sim/os", "net": "verif/sim/net", "net/http": "verif/sim/net", "sync": "verif/sim/sync", "sync/atomic": "verif/sim/atomic"}
 	return []rewrite.PkgSpec{
 		{Dir: repo("goproxytest"), Subst: net, GoStmts: true},
 		{Dir: repo("par"), Subst: substSync, GoStmts: true},
